@@ -608,3 +608,25 @@ def conf_job(run, name, scope, profile="dev", workers=5, timeout=1500):
                 "model-level results are not transferable for this view" % (k, json.dumps(scope["cfgs"][ex[0] - 1]), decode_hist(ex[2], ex[1], scope["alphabet"])))
             run.notes.append("DRIFT %s" % k)
     return res
+
+
+def apalache_job(run, module, timeout=900):
+    """Apalache layer (model level only): inductive invariant of an integer restatement of a machine, for every integer
+    input and every stream length (fixed N in a small range).  Base case and inductive step must both report NoError."""
+    wd = os.path.join(run.wd, "apalache-" + module)
+    os.makedirs(wd, exist_ok=True)
+    src = os.path.join(SPEC, "apalache", module + ".tla")
+    t0 = time.time()
+    outs = []
+    for mode in (["--init=Init", "--length=0"], ["--init=IndInit", "--length=1"]):
+        p = sh(["timeout", str(timeout), "apalache-mc", "check", "--cinit=ConstInit", "--inv=IndInv", "--out-dir=" + os.path.join(wd, "out"),
+                "--write-intermediate=false"] + mode + [src], cwd=wd, timeout=timeout + 30, check=False)
+        outs.append(p.stdout)
+        if "The outcome is: NoError" not in p.stdout:
+            tail = "\n".join(p.stdout.splitlines()[-15:])
+            raise ToolError("apalache %s %s: inductive invariant not established (model level):\n%s" % (module, " ".join(mode), tail))
+    shutil.rmtree(wd, ignore_errors=True)
+    with run.lock:
+        run.jobs.append({"name": "apalache-" + module, "pipeline": "Apalache inductive invariant (model level, all integers, all stream lengths)",
+                         "module": "apalache/" + module + ".tla", "obligations": 2, "discharged": 2, "wall_s": round(time.time() - t0, 2)})
+    return True
